@@ -55,6 +55,9 @@ LITERALS = [
     ("-1.5e-3", -1.5e-3), ("(1, (2, (3,)))", (1, (2, (3,)))),
     # blank lines around an expression are not part of it in Python's grammar
     ("\n1", 1), ("1\n", 1),
+    # tuples do not need parentheses; a comment is not part of the expression
+    ("1, 2", (1, 2)), ("2,", (2,)), ("'a', [1]", ('a', [1])), ("1 # one", 1), ("(1, 2)  # pair", (1, 2)),
+    (".5", 0.5), ("5.", 5.0), ("1_000.5", 1000.5), ("0b101", 5), ("0o17", 15), ("1E2", 100.0), ("-0", 0), ("0_0", 0),
 ]
 NONLITERALS = [
     "abc", "a b", "", " ", "f()", "a.b", "1+2", "2*3", "1 if 1 else 2", "__import__('os')", "TRIP()", "TRIP.x", "[TRIP]",
@@ -62,6 +65,9 @@ NONLITERALS = [
     "1 2", "not True", "-'a'", "{*()}", "a=b=c", "k:v", "a->b", "open('/etc/passwd')", "exec('1')", "1 == 1", "a==b",
     "__import__('os').system('true')", "print(1)", "list()", "dict(a=1)", "1;2", "yield", "True and False", "[1, f()]",
     "{'k': TRIP()}", "(1, __import__('os'))", "*a", "@x", "0o8", "1__0", "'a' 'b'x",
+    # accepted by int() / float() but not Python literals
+    "007", "-01", "0_7", "inf", "-inf", "+inf", "nan", "Infinity", "-Infinity", "NaN", "1e", "\u0661\u0662", "-\u0663", "١.٥",
+    "1_", "_1", "0x", "1 000", "1,000.5.", "# only a comment", "(3", "4)", "", "1, 2 3",
 ]
 FRAGMENTS = [(t, v) for t, v in LITERALS] + [(t, KEEP) for t in NONLITERALS]
 SEPS = ['=', ':', '==', '->']
@@ -165,7 +171,7 @@ class C19(Check):
                     yield {'items': [[0, vi]], 'sep': sep, 'pk': pk}
         yield {'items': [], 'sep': '=', 'pk': True}
         for kind in ('nosep', 'nosep_later', 'passthrough', 'parser_valueerror', 'parser_keyerror', 'parser_custom',
-                     'parser_typeerror', 'mapping_keys'):
+                     'parser_typeerror', 'mapping_keys', 'reentrant_items', 'reentrant_parser'):
             for sep in SEPS:
                 yield {'special': kind, 'sep': sep}
         rng = random.Random(seed * 131 + 9)
@@ -241,6 +247,39 @@ class C19(Check):
             r = self.call([f'k{sep}1'], sep=sep, parse=parser, parse_keys=False)
             if r[0] != 'ok' or r[1] != {'k': '1'}:
                 res.violate('C19:custom-parser', 'parse_keys=False with a failing parser', got=repr(r))
+        elif kind == 'reentrant_items':
+            # the item generator of one call makes another call with other settings before yielding more
+            f = self.f
+            other = {':': '=', '=': ':', '==': '->', '->': '=='}[sep]
+            inner = []
+
+            def items():
+                yield f'a{sep}1'
+                inner.append(f([f'x{other}[1, 2]', f'y{other}zz'], sep=other, parse_keys=False))
+                yield f'"b"{sep}(2,)'
+                inner.append(f({'q': '3'}, parse=lambda t: ('custom', t)))
+                yield f'c{sep}d{other}e'
+            r = self.call(items(), sep=sep)
+            want = {'a': 1, 'b': (2,), 'c': 'd' + other + 'e'}
+            if r[0] != 'ok' or canon(r[1]) != canon(want):
+                res.violate('C19:reentrant-call', 'a call made while another call was consuming its items changed that call\'s result',
+                            got=repr(r)[:200], want=repr(want))
+            if inner != [{'x': [1, 2], 'y': 'zz'}, {('custom', 'q'): ('custom', '3')}]:
+                res.violate('C19:reentrant-call', 'the inner calls returned something else', got=repr(inner)[:200])
+        elif kind == 'reentrant_parser':
+            f = self.f
+            other = {':': '=', '=': ':', '==': '->', '->': '=='}[sep]
+
+            def parser(t):
+                if t.startswith('{') and other in t:
+                    return f(t[1:-1].split(';'), sep=other)
+                import ast as _ast
+                return _ast.literal_eval(t)
+            r = self.call([f'outer{sep}{{a{other}1;b{other}"x"}}', f'n{sep}2', f'm{sep}{{k{other}(1,)}}', f'"z"{sep}3'], sep=sep, parse=parser)
+            want = {'outer': {'a': 1, 'b': 'x'}, 'n': 2, 'm': {'k': (1,)}, 'z': 3}
+            if r[0] != 'ok' or canon(r[1]) != canon(want):
+                res.violate('C19:reentrant-call', 'a parser that itself uses parse_to_dict changed the outer call\'s result',
+                            got=repr(r)[:200], want=repr(want))
         else:
             class M(dict):
                 pass
